@@ -20,6 +20,7 @@ import time
 
 REPO = "/repo"
 BASE = "/tmp/mutcamp"
+SNAP = BASE + "/verif"
 CHECKS = {
     "baize/multipart.py": ["C01", "C15", "C04", "C12"],
     "baize/multipart_helper.py": ["C15", "C01", "C04"],
@@ -154,7 +155,7 @@ def worker(wid, queue, results, lock, out_path):
             if rec["baseline"]:
                 for pid in CHECKS[m["file"]]:
                     t0 = time.time()
-                    rc, out = run("cd /verif && VERIF_REPO=%s ./check %s --tier quick" % (wt, pid), timeout=1500)
+                    rc, out = run("cd %s && VERIF_REPO=%s ./check %s --tier quick" % (SNAP, wt, pid), timeout=1500)
                     drift = [l for l in out.splitlines() if l.startswith(("PASS", "FAIL"))]
                     rec["checks"][pid] = {"rc": rc, "wall": round(time.time() - t0, 1), "line": drift[-1][:160] if drift else out[-200:]}
                     if rc == 1:
@@ -214,6 +215,9 @@ def main():
     print("%d candidate mutants in %d files, %d already done, running %d with %d workers" % (len(allm), len(files), len(done), len(todo), a.workers), flush=True)
     os.makedirs(os.path.dirname(a.out), exist_ok=True)
     os.makedirs(BASE, exist_ok=True)
+    # the checks run from a snapshot of /verif, so that work on /verif during a campaign cannot disturb it
+    subprocess.run(["rsync", "-a", "--delete", "--exclude", ".git", "--exclude", "seeded", "--exclude", "evidence", "--exclude", "mutation",
+                    "/verif/", SNAP + "/"], check=True)
     for w in range(a.workers):
         wt = "%s/w%d" % (BASE, w)
         if not os.path.isdir(wt):
